@@ -49,7 +49,8 @@ CONSTANTS
   MaxFaults,             \* "remote": number of faults
   FaultKinds,            \* subset of {"cut","relay","remote"}
   Scenarios,             \* subset of {"local","remote"}
-  AlReader,              \* BOOLEAN: a client reads the mirrored copy on the submitting node
+  AlReader,              \* BOOLEAN: a client reads the mirrored copy on the submitting node ...
+  AlOffsets,             \* ... from one of these start offsets
   A_CreateBeforePoll,    \* BOOLEAN assumption: monitorRemoteStdout has created the local stdout file (a local
                          \* OpenFile, first thing it does) before monitorRemoteStatus, started at the same moment,
                          \* has dialled the remote node and got its first reply.  With FALSE, TLC shows the lead
@@ -358,7 +359,9 @@ Repairs == Reconnect \/ RelayUp \/ RemoteUp
 
 Next ==
   \/ Producer
-  \/ \E r \in Readers : ReaderUp(r) \/ R_Abort(r) \/ (\E p \in 0..MaxOut : R_Begin(r, p))
+  \/ \E r \in Readers : ReaderUp(r) \/ R_Abort(r)
+  \/ \E p \in 0..MaxOut : R_Begin("cl", p)
+  \/ \E p \in AlOffsets : R_Begin("al", p)
   \/ Monitors \/ Faults \/ Repairs
 
 \* Fairness: the runner ends the unit, the daemon reloads, every started loop keeps stepping, every fault is
